@@ -7,6 +7,7 @@ import Ww.Driver.C16
 import Ww.Driver.C02
 import Ww.Driver.C03
 import Ww.Driver.C13
+import Ww.Driver.Cook
 open Ww.Driver
 
 def dispatch (l : Line) : List Verdict :=
@@ -29,6 +30,11 @@ def dispatch (l : Line) : List Verdict :=
   | "idtok" => handleIdTok l
   | "login13" => handleLogin13 l
   | "fresh13" => handleFresh13 l
+  | "setcookie" => handleSetCookie l
+  | "jar" => handleJar l
+  | "retrychain" => handleRetryChain l
+  | "retryreset" => handleRetryReset l
+  | "ratelimit" => handleRateLimit l
   | k => [Verdict.bad s!"unknown kind {k}"]
 
 partial def loop (h : IO.FS.Stream) (out : IO.FS.Stream) (i : Nat) : IO Unit := do
